@@ -1,5 +1,6 @@
 (* C16 — The command-line extractor never writes outside the output directory. *)
-From MLA Require Import Base Path PathProofs SrcTie.
+From MLA Require Import Base Path PathProofs PathLinks PathBenign SrcTie.
+Import Coq.Strings.String.StringSyntax.
 Open Scope N_scope.
 
 (* Unix Path::components never yields a Normal component that is empty, ".", ".." or
@@ -21,10 +22,69 @@ Theorem C16_refuse_iff_parent :
   forall out name, get_extracted_path out name = None <-> In ParentDir (components name).
 Proof. exact refuse_iff_parent. Qed.
 
-(* whole extraction, per-file form and linear form, ANY member names (hostile included),
-   success or abort: from an output directory that is a real directory with no symbolic link
-   beneath it, nothing outside the output directory changes, and no link appears beneath it.
-   Derived from the component filter alone (the canonicalisation check is not used). *)
+(* MAIN THEOREM.  ANY initial file system (directories, regular files, symbolic links with
+   absolute or relative targets, ".." in targets, dangling or cyclic, inside and outside the
+   output directory; resolution through more than MAXSYMLINKS = 40 links fails as ELOOP does),
+   ANY member names and contents, both extraction forms, success or abort:
+   `evolves out f f'` — directories stay, the symbolic links are exactly the same, regular
+   files stay regular files, and at every physical path that is NOT beneath out a regular file
+   is there afterwards iff it was there before, with the same content (no file outside is
+   created, truncated, appended to or removed).  Directories may be created outside: that is
+   what create_dir_all does through a link before the check (C16_directories_created_outside).
+   An output directory that is a real directory (what fs::canonicalize returns,
+   C16_canonical_output_dir_is_real) remains one. *)
+Theorem C16_extract_confined_with_symlinks :
+  forall out f,
+    (forall ms f' b, extract_all out ms f = (f', b) -> evolves out f f') /\
+    (forall names blocks f' b, extract_linear out names blocks f = (f', b) -> evolves out f f') /\
+    (forall f', evolves out f f' -> real_dir f out -> real_dir f' out).
+Proof. exact extract_confined_with_symlinks. Qed.
+
+(* the same as a list: the physical path of EVERY file that is created/truncated or appended
+   to (whether or not its content changes) is beneath the output directory *)
+Theorem C16_touched_all_beneath :
+  forall out ms f, Forall (prefix out) (touched_all out ms f).
+Proof. exact touched_all_beneath. Qed.
+
+Theorem C16_touched_linear_beneath :
+  forall out names blocks f, Forall (prefix out) (touched_linear out names blocks f).
+Proof. exact touched_linear_beneath. Qed.
+
+(* one create_file, any file system: the created file is a regular file at a physical path
+   beneath out which is its own canonical path, and the literal path kept for the append-mode
+   reopen of the linear form resolves to it — then and, by C16_canonicalize_stable, at any
+   later moment of the extraction *)
+Theorem C16_create_file_any_fs :
+  forall out name f f' o, create_file out name f = (f', o) ->
+    evolves out f f' /\
+    (forall lit cp, o = Created lit cp ->
+       prefix out cp /\ lookup f' cp = Some (File []) /\
+       canonicalize f' lit = Some cp /\ canonicalize f' cp = Some cp).
+Proof. exact create_file_any_fs. Qed.
+
+Theorem C16_canonicalize_stable :
+  forall out f f' p q, evolves out f f' -> canonicalize f p = Some q -> canonicalize f' p = Some q.
+Proof. exact canonicalize_stable. Qed.
+
+Theorem C16_canonical_output_dir_is_real :
+  forall f p q, canonicalize f p = Some q -> is_dir f q = true -> real_dir f q.
+Proof. exact canonical_dir_is_real. Qed.
+
+(* second, independent derivation: from the canonicalize + starts_with check and the
+   symlink_metadata test alone, for ANY path-computing function (even one that does not filter
+   "..") and ANY file system: the created file is q/c with q the canonical parent, beneath out.
+   (Full statement; it was `…_partial`, restricted to no link beneath out, before D23 was repaired.) *)
+Theorem C16_confined_by_canonical_check :
+  forall gp out name f f' lit cp,
+    create_file_with gp prefixb sys_is_symlink out name f = (f', Created lit cp) ->
+    prefix out cp /\
+    exists par c q, lit = par ++ [c] /\ cp = q ++ [c] /\ prefix out q /\
+      canonicalize (fst (prepare_parent f par)) par = Some q.
+Proof. exact confined_by_canonical_check_file. Qed.
+
+(* third derivation, from the component filter alone (neither check is used): from an output
+   directory that is a real directory with no symbolic link beneath it, NOTHING outside the
+   output directory changes (no directory either), and no link appears beneath it *)
 Theorem C16_extract_all_confined :
   forall out ms f f' b, real_dir f out -> no_links_under out f ->
     extract_all out ms f = (f', b) -> confined out f f'.
@@ -35,35 +95,103 @@ Theorem C16_extract_linear_confined :
     extract_linear out names blocks f = (f', b) -> confined out f f'.
 Proof. exact extract_linear_confined. Qed.
 
-(* second, independent derivation: from the canonicalize + starts_with check alone, for ANY
-   path-computing function (even one that does not filter "..") and ANY file system (links
-   anywhere): a created file's canonical PARENT is beneath the output directory *)
-Theorem C16_confined_by_canonical_check_partial :
-  forall gp out name f f' lit cp, no_links_under out f ->
-    create_file_with gp prefixb out name f = (f', Created lit cp) -> prefix out cp.
-Proof. exact confined_by_canonical_check_file_partial. Qed.
+(* D23 regression witness: the code as it was before the repair (no symlink_metadata test) is
+   refuted by computation — a member named like a symbolic link to a file outside is written
+   THROUGH the link, in both forms; the repaired code leaves the file alone *)
+Theorem C16_D23_old_code_refuted :
+  exists out ms names blocks f,
+    real_dir f out /\
+    (exists f', extract_all_old out ms f = (f', true) /\ ~ evolves out f f' /\
+       read_file f [s2b "outside.txt"] = Some (s2b "outside") /\
+       read_file f' [s2b "outside.txt"] = Some (s2b "F")) /\
+    (exists f', extract_linear_old out names blocks f = (f', true) /\ ~ evolves out f f' /\
+       read_file f' [s2b "outside.txt"] = Some (s2b "F")) /\
+    (exists f', extract_all out ms f = (f', true) /\
+       read_file f' [s2b "outside.txt"] = Some (s2b "outside")).
+Proof. exact D23_old_code_extraction_refuted. Qed.
 
-(* benign members (no "..", non-empty after normalisation, representable, pairwise not
-   prefixes of one another) are extracted beneath the output directory with exactly their
-   content, and nothing else changes *)
+(* what the property does NOT say, and the code does: directories are created outside *)
+Theorem C16_directories_created_outside :
+  exists f out name f' p,
+    real_dir f out /\ create_file out name f = (f', Skipped) /\
+    prefixb out p = false /\ lookup f p = None /\ lookup f' p = Some Dir.
+Proof. exact directories_created_outside. Qed.
+
+(* benign members — no "..", non-empty after normalisation, representable, pairwise not
+   prefixes of one another, and a clear way (nothing at out/<name>, proper ancestors missing or
+   real directories: not routed through a link) — in an otherwise ARBITRARY file system are
+   extracted beneath the output directory with exactly their content; everything that was
+   there stays unchanged and nothing changes outside.  Both forms. *)
 Theorem C16_benign_extracted :
-  forall out ms f, real_dir f out -> fresh_under out f -> Forall (benign out) ms ->
+  forall out ms f, real_dir f out -> Forall (benign out) ms ->
     pairwise unrelated (map (fun m => norm (fst m)) ms) ->
+    Forall (fun m => clear_path out f (norm (fst m))) ms ->
     exists f', extract_all out ms f = (f', true) /\
       (forall name content, In (name, content) ms ->
          lookup f' (out ++ norm name) = Some (File content) /\
          canonicalize f' (out ++ norm name) = Some (out ++ norm name) /\
          read_file f' (out ++ norm name) = Some content) /\
+      (forall p n, lookup f p = Some n -> lookup f' p = Some n) /\
       (forall p, ~ prefix out p -> lookup f' p = lookup f p).
-Proof. exact benign_extracted. Qed.
+Proof. exact benign_extracted_any_fs. Qed.
+
+Theorem C16_benign_extracted_linear :
+  forall out names blocks f, real_dir f out -> Forall (fun n => benign out (n, [])) names ->
+    pairwise unrelated (map norm names) ->
+    Forall (fun n => clear_path out f (norm n)) names ->
+    exists f', extract_linear out names blocks f = (f', true) /\
+      (forall name, In name names ->
+         read_file f' (out ++ norm name) =
+           Some (concat (map snd (filter (fun b => bytes_eqb (fst b) name) blocks)))) /\
+      (forall p, ~ prefix out p -> lookup f' p = lookup f p).
+Proof. exact benign_extracted_linear_any_fs. Qed.
+
+(* an empty output directory: every non-empty way is clear *)
+Theorem C16_fresh_is_clear :
+  forall out f q, fresh_under out f -> q <> [] -> clear_path out f q.
+Proof. exact fresh_under_clear_path. Qed.
 
 Print Assumptions C16_components_no_sep.
 Print Assumptions C16_extracted_path_beneath.
 Print Assumptions C16_refuse_iff_parent.
+Print Assumptions C16_extract_confined_with_symlinks.
+Print Assumptions C16_touched_all_beneath.
+Print Assumptions C16_touched_linear_beneath.
+Print Assumptions C16_create_file_any_fs.
+Print Assumptions C16_canonicalize_stable.
+Print Assumptions C16_canonical_output_dir_is_real.
+Print Assumptions C16_confined_by_canonical_check.
 Print Assumptions C16_extract_all_confined.
 Print Assumptions C16_extract_linear_confined.
-Print Assumptions C16_confined_by_canonical_check_partial.
+Print Assumptions C16_D23_old_code_refuted.
+Print Assumptions C16_directories_created_outside.
 Print Assumptions C16_benign_extracted.
+Print Assumptions C16_benign_extracted_linear.
+Print Assumptions C16_fresh_is_clear.
+
+(* non-vacuity on the sandbox of the harness job c16-symlink (out/link -> ../sibling,
+   out/deep/l2 -> ../../sibling/keepdir, out/flink -> ../outside.txt): members routed through
+   the links write nothing outside, directories appear outside, the others are extracted *)
+Example C16_nonvacuous_sandbox :
+  let r := extract_all out_ sandbox_members fs_sandbox in
+  snd r = true /\
+  read_file (fst r) [s2b "outside.txt"] = Some (s2b "outside") /\
+  read_file (fst r) [s2b "sibling"; s2b "keep.txt"] = Some (s2b "keep") /\
+  lookup (fst r) [s2b "sibling"; s2b "sub"] = Some Dir /\
+  read_file (fst r) (out_ ++ [s2b "inside"; s2b "ok.txt"]) = Some (s2b "I") /\
+  read_file (fst r) (out_ ++ [s2b "zz_benign"]) = Some (s2b "B").
+Proof. vm_compute. repeat split. Qed.
+
+(* the hypotheses of C16_benign_extracted are met in that sandbox, links and all *)
+Example C16_nonvacuous_benign :
+  let ms := [ (s2b "deep/x", s2b "X"); (s2b "inside/ok.txt", s2b "I"); (s2b "zz_benign", s2b "B") ] in
+  real_dir fs_sandbox out_ /\ Forall (benign out_) ms /\
+  pairwise unrelated (map (fun m => norm (fst m)) ms) /\
+  Forall (fun m => clear_path out_ fs_sandbox (norm (fst m))) ms /\
+  exists f', extract_all out_ ms fs_sandbox = (f', true) /\
+    read_file f' (out_ ++ [s2b "deep"; s2b "x"]) = Some (s2b "X") /\
+    is_symlink f' (out_ ++ [s2b "flink"]) = true.
+Proof. exact benign_any_fs_sandbox. Qed.
 
 (* Tie A: the component filter in the source is the one the theorems are about *)
 Theorem C16_filter_is_the_source_one :
